@@ -76,14 +76,17 @@ theorem fontToViewBox_inverts_placement (vb : Rect) (asc desc width : Q) (hd : d
   rw [e, inv_app hinv]
 
 /-- **C13 (whole walk)**: for every paint graph of the supported subset — any nesting of PaintColrLayers,
-transform paints and SRC_IN/black group composites above PaintGlyphs whose fill is solid or a linear gradient
-under any chain of transforms — the list of elements `_colr_v1_paint_to_svg` emits for the glyph's root paint
-shows at the viewBox point `V x` exactly what the COLR graph shows at the font-space point `x`.  For every
-interpretation of pixels and outline coverage that satisfies the laws of source-over. -/
-theorem colr_to_svg_preserves {α} (E : PixAlg α) (L : PixLaws E) (V : Aff) (hV : Invertible V) (p : CP)
-    (hwf : WFAt V Aff.id p) (x : Pt) :
-    colrRender E p x = E.comp (svgRenderList E V (toSvg V Aff.id p) (V.app x)) := by
-  have := toSvg_correct E L V hV p Aff.id id_invertible hwf x
+transform paints, SRC_IN/black group composites and PaintColrGlyph references (to any depth, under any accumulated
+transform: `CP.ref` carries the referenced glyph's paint, paint graphs being acyclic) above PaintGlyphs whose fill
+is solid, a linear gradient or a RADIAL gradient under any chain of transforms — the list of elements
+`_colr_v1_paint_to_svg` emits for the glyph's root paint shows at the viewBox point `V x` exactly what the COLR graph
+shows at the font-space point `x`.  For every interpretation of pixels and outline coverage that satisfies the laws of
+source-over, and for every similarity/remainder split `dec` of the radial gradients' transforms that satisfies `DecOK`
+(the real split uses `hypot`; `decomposeUniform_exact`, C16, is the exact-arithmetic statement about it). -/
+theorem colr_to_svg_preserves {α} (E : PixAlg α) (L : PixLaws E) (V : Aff) (hV : Invertible V) (dec : Dec) (hdec : DecOK dec)
+    (p : CP) (hwf : WFAt V Aff.id p) (x : Pt) :
+    colrRender E p x = E.comp (svgRenderList E V (toSvg V dec Aff.id p) (V.app x)) := by
+  have := toSvg_correct E L V hV dec hdec p Aff.id id_invertible hwf x
   rwa [inv_id_app] at this
 
 /-- **C13/C16 (radial gradients under a general affine)**: what `PaintRadialGradient.apply_transform` and
@@ -94,12 +97,8 @@ solutions the original circles have through `t`. -/
 theorem radial_applyTransform_sound (g : RadGrad) (t u r : Aff) (hcomp : Aff.composeLtr [u, r] = t)
     (hb : u.b = 0) (hc : u.c = 0) (hd : u.d = u.a ∨ u.d = -u.a) (hs : 0 < u.a)
     (hu : Invertible u) (hr : Invertible r) (ht : Invertible t) (x : Pt) (τ : Q) :
-    (g.applyUniform u).sol ((r.inverseEps eps).app x) τ ↔ g.sol ((t.inverseEps eps).app x) τ := by
-  rw [Aff.composeLtr2] at hcomp
-  subst hcomp
-  rw [inv_mul_app hr hu ht]
-  have := C16.radial_similarity u hb hc hd hs g ((u.inverseEps eps).app ((r.inverseEps eps).app x)) τ
-  rwa [app_inv hu] at this
+    (g.applyUniform u).sol ((r.inverseEps eps).app x) τ ↔ g.sol ((t.inverseEps eps).app x) τ :=
+  radial_split_sound g t u r hcomp hb hc hd hs hu hr ht x τ
 
 /-- non-vacuity: a concrete similarity + shear residual meets the hypotheses -/
 example : (let u : Aff := ⟨2, 0, 0, -2, 5, 7⟩; let r : Aff := ⟨1, 0, 1/2, 1, 0, 0⟩
@@ -109,7 +108,7 @@ example : (let u : Aff := ⟨2, 0, 0, -2, 5, 7⟩; let r : Aff := ⟨1, 0, 1/2, 
 /-- a pixel algebra satisfying the laws exists (max-blending of naturals), so the theorem is not vacuous … -/
 def maxAlg : PixAlg Nat :=
   { clear := 0, over := max, fade := fun _ x => x, inside := fun o p => decide (p.x = (o : Q)),
-    solidPix := fun c _ => c + 1, linePix := fun l _ => l + 1 }
+    solidPix := fun c _ => c + 1, linePix := fun l _ => l + 1, radPix := fun l _ => l + 1 }
 theorem maxAlg_laws : PixLaws maxAlg :=
   ⟨fun a b c => by simp [maxAlg, Nat.max_assoc], fun a => by simp [maxAlg], fun a => by simp [maxAlg]⟩
 
@@ -118,6 +117,21 @@ meets the well-formedness hypothesis -/
 example : WFAt ⟨1/10, 0, 0, -1/10, 0, 80⟩ Aff.id
     (.layers [.glyph 1 (.solid 2 (1/2)),
               .transform ⟨1, 0, 0, 1, 10, 0⟩ (.group (1/2) (.layers [.glyph 2 (.transform ⟨2, 0, 0, 2, 0, 0⟩ (.lin ⟨⟨0, 0⟩, ⟨100, 0⟩, ⟨0, 100⟩⟩ 0))]))]) := by
+  simp only [WFAt, WFList, FillOK, pathTr]
+  norm_num [C06.Invertible, Aff.det, Aff.mul, Aff.id, Aff.composeLtr, Aff.inverseEps, qabs, eps, FLOAT_EPSILON, mkQ_eq]
+
+/-- a radial fill under a transform is inside the theorem too, and a split satisfying `DecOK` exists (`decOK_trivial`) -/
+example : WFAt ⟨1/10, 0, 0, -1/10, 0, 80⟩ Aff.id
+    (.transform ⟨1, 0, 0, 1, 10, 0⟩ (.glyph 2 (.transform ⟨2, 0, 1/2, 1, 0, 0⟩ (.rad ⟨⟨0, 0⟩, 10, ⟨30, 40⟩, 100⟩ 0)))) ∧ DecOK (fun t => (Aff.id, t)) := by
+  refine ⟨?_, decOK_trivial⟩
+  simp only [WFAt, FillOK, pathTr]
+  norm_num [C06.Invertible, Aff.det, Aff.mul, Aff.id, Aff.composeLtr, Aff.inverseEps, qabs, eps, FLOAT_EPSILON, mkQ_eq]
+
+/-- … and so does a graph that reaches a second colour glyph through PaintColrGlyph under a non-identity transform, inside a group
+(the accumulated transform goes on one wrapping `<g>`; the referenced paint starts from the identity again) -/
+example : WFAt ⟨1/10, 0, 0, -1/10, 0, 80⟩ Aff.id
+    (.layers [.glyph 1 (.solid 2 1),
+              .transform ⟨2, 0, 0, 2, 5, 0⟩ (.group (1/2) (.ref (.layers [.glyph 2 (.solid 1 1), .transform ⟨1, 0, 0, 1, 0, 7⟩ (.glyph 3 (.solid 3 1))])))]) := by
   simp only [WFAt, WFList, FillOK, pathTr]
   norm_num [C06.Invertible, Aff.det, Aff.mul, Aff.id, Aff.composeLtr, Aff.inverseEps, qabs, eps, FLOAT_EPSILON, mkQ_eq]
 
